@@ -17,7 +17,7 @@ from aiokafka.record.util import decode_varint_py
 
 from specs import refcodec as R
 from . import cext as CX
-from .common import patched
+from .common import Runaway, patched, watchdog
 
 CLEAN = (CorruptRecordException, UnsupportedCodecError, ValueError, IndexError, AssertionError, struct.error,
          KeyError, TypeError, OverflowError, UnicodeDecodeError, zlib.error, EOFError, OSError)
@@ -116,6 +116,45 @@ def u4_v2_crc(src):
         src.check(s_not(same), "v2 batch with the correct CRC reported invalid")
 
 
+# ------------------------------------------------------------------------------------------ U2 v2 record parser
+
+
+def u2_v2_read_msg(src, nbytes):
+    """_DefaultRecordBatchPy._read_msg on a batch whose record region is `nbytes` arbitrary bytes (and whose
+    record count has an arbitrary low byte, the byte just in front of the region): every call either fails
+    with an ordinary exception or returns a record and leaves the cursor strictly further on and inside the
+    buffer -- so iteration terminates after at most len(region) records and never re-reads a byte"""
+    raw = bytearray(R.encode_v2(10, [dict(offset=10, timestamp=5, key=b"k", value=b"v", headers=[])]))
+    hdr = list(raw[:61])
+    hdr[60] = src.byte("record_count_low_byte")
+    region = src.bytes("r", nbytes)
+    buf = SymBuf(hdr + region, False)
+    fmt = _DefaultRecordBatchPy.HEADER_STRUCT.format
+    outcome = None
+    with patched(DR.DefaultRecordBase, HEADER_STRUCT=shims.Struct(fmt)), \
+            patched(DR, bytearray=shims.sym_bytearray, memoryview=shims.sym_memoryview, bytes=shims.sym_bytes):
+        batch = _DefaultRecordBatchPy(buf)
+        start = batch._pos
+        src.check(start == 61, "v2 reader does not start reading records right after the 61-byte header")
+        try:
+            rec = batch._read_msg()
+            outcome = "record"
+        except CLEAN as e:
+            outcome = "raises " + type(e).__name__
+        except (MemoryError, SystemError, RecursionError) as e:
+            outcome = "internal " + type(e).__name__
+        end = batch._pos
+    src.note({"outcome": outcome})
+    src.check(not outcome.startswith("internal"), "v2 record parser raised an internal error: " + outcome)
+    if outcome == "record":
+        lo = start + (0 if not src.twin else nbytes + 1)
+        src.check(end > lo, "v2 record parser returned a record without advancing its cursor (the same bytes are read again)")
+        src.check(end <= len(buf), "v2 record parser left its cursor beyond the end of the buffer")
+        for name, v in (("key", rec.key), ("value", rec.value)):
+            if v is not None:
+                src.check(len(v) <= nbytes, f"v2 record {name} is longer than the record region it was read from")
+
+
 # ------------------------------------------------------------------------------------------ U1 legacy walker
 
 
@@ -196,7 +235,16 @@ BOUNDARY_VARINT = [bytes([0xFF] * 9 + [0x01]), bytes([0xFF] * 10 + [0x01]), byte
 
 
 def _decode_all(data):
-    """what a consumer does with a fetch response: split, validate, iterate; bounded"""
+    """what a consumer does with a fetch response: split, validate, iterate; bounded by counters on the
+    harness-visible loops and by a CPU-time budget on loops inside the decoders"""
+    try:
+        with watchdog(2.0):
+            return _decode_all_unguarded(data)
+    except Runaway:
+        return "runaway"
+
+
+def _decode_all_unguarded(data):
     recs = _MemoryRecordsPy(bytes(data))
     out = []
     nb = 0
@@ -325,6 +373,12 @@ def harnesses(tier):
                           functions=[_LegacyRecordBatchPy.validate_crc, _LegacyRecordBatchPy._read_header], shape="U",
                           symbolic_vars="the 4 stored CRC bytes (all 2^32 values)", bounds={"content": "one fixed message"},
                           stubs=["struct/memoryview shims", "zlib.crc32 applied to the (concrete) content"]))
+    for n in ([7, 8] if tier == "quick" else [7, 8, 9, 10]):
+        hs.append(Harness(name=f"U2_v2_read_msg_{n}B", fn=u2_v2_read_msg, params={"nbytes": n},
+                          functions=[_DefaultRecordBatchPy._read_msg, decode_varint_py], shape="U",
+                          symbolic_vars="every byte of the record region and the byte in front of it (8-bit vectors)",
+                          bounds={"record_region_bytes": n}, stubs=["struct/bytearray/memoryview/bytes shims"],
+                          max_seconds=300 if tier == "quick" else 1500, max_paths=2000000, twin_max_paths=3000))
     hs.append(Harness(name="U4_v2_crc", fn=u4_v2_crc, functions=[_DefaultRecordBatchPy.validate_crc], shape="U",
                       symbolic_vars="the 4 stored CRC bytes (all 2^32 values)", bounds={"content": "one fixed batch"},
                       stubs=["struct/bytearray/memoryview shims", "crc32c applied to the (concrete) content"]))
